@@ -164,7 +164,11 @@ def run_check(prop: str, tier: str, index: Optional[Index] = None, write: bool =
         out_lines.append(f"KNOWN-FINDING: property={prop} rule={o.rule} key={o.key} {k.get('what', o.msg)}")
     if new_viol and write:
         os.makedirs(os.path.join(VERIF, "reports"), exist_ok=True)
+    seen_keys = set()
     for o in new_viol:
+        if (o.rule, o.key) in seen_keys:
+            continue
+        seen_keys.add((o.rule, o.key))
         dg = hashlib.sha1(f"{o.rule}|{o.key}".encode()).hexdigest()[:10]
         path = os.path.join(VERIF, "reports", f"{prop}-{o.rule}-{dg}.json")
         if write:
